@@ -1033,7 +1033,152 @@ def gen_attack(repo):
     return '\n'.join(out) + '\n'
 
 
-GENERATORS = [('Coding.lean', gen_coding), ('LengthFormat.lean', gen_lengthformat),
+
+# ---------------------------------------------------------------- Handshake.lean
+
+def byte_list(b):
+    return '[' + ', '.join(str(x) for x in b) + ']'
+
+
+def gen_handshake(repo):
+    mod = strip_comments(open(os.path.join(repo, 'src/handshake/mod.rs')).read())
+    srv = strip_comments(open(os.path.join(repo, 'src/handshake/server.rs')).read())
+    cli = strip_comments(open(os.path.join(repo, 'src/handshake/client.rs')).read())
+    ccl = strip_comments(open(os.path.join(repo, 'src/client.rs')).read())
+
+    def need(m, what):
+        if not m:
+            raise TranslateError(f'handshake literal not found: {what}')
+        return m
+
+    # WS_GUID and the shape of derive_accept_key
+    params, body = find_fn(mod, 'derive_accept_key', 'derive_accept_key')
+    guid = need(re.search(r'const\s+WS_GUID\s*:\s*&\[u8\]\s*=\s*b"([^"]*)"\s*;', body), 'WS_GUID').group(1)
+    norm = re.sub(r'\s+', ' ', body)
+    if ('sha1.update(request_key); sha1.update(WS_GUID); data_encoding::BASE64.encode(&sha1.finalize())'
+            not in norm):
+        raise TranslateError('derive_accept_key changed shape (expected sha1(key ++ GUID) then BASE64)')
+
+    # create_parts: the sequence of checks and their literals
+    params, body = find_fn(srv, 'create_parts', 'create_parts')
+    errs = re.findall(r'ProtocolError::(\w+)', body)
+    want = ['WrongHttpMethod', 'WrongHttpVersion', 'MissingConnectionUpgradeHeader',
+            'MissingUpgradeWebSocketHeader', 'MissingSecWebSocketVersionHeader', 'MissingSecWebSocketKey']
+    if errs != want:
+        raise TranslateError(f'create_parts: order of checks changed: {errs}')
+    if not re.search(r'request\.method\(\)\s*!=\s*http::Method::GET', body):
+        raise TranslateError('create_parts: method check changed')
+    if not re.search(r'request\.version\(\)\s*<\s*http::Version::HTTP_11', body):
+        raise TranslateError('create_parts: version check changed')
+    m = need(re.search(r'if\s*!\s*request\s*\.headers\(\)\s*\.get\("([^"]*)"\)\s*\.and_then\(\|h\|\s*h\.to_str\(\)\.ok\(\)\)\s*'
+                       r'\.map\(\|h\|\s*h\.split\(\[([^\]]*)\]\)\.any\(\|p\|\s*p\.eq_ignore_ascii_case\("([^"]*)"\)\)\)\s*'
+                       r'\.unwrap_or\(false\)', body), 'create_parts Connection check')
+    conn_name, conn_split, conn_tok = m.group(1), m.group(2), m.group(3)
+    split_chars = [ord(c[1]) for c in re.findall(r"'(?:\\.|[^'])'", conn_split) for c in [c]]
+    split_chars = [ord(x[1:-1]) for x in re.findall(r"'[^'\\]'", conn_split)]
+    m = need(re.search(r'if\s*!\s*request\s*\.headers\(\)\s*\.get\("([^"]*)"\)\s*\.and_then\(\|h\|\s*h\.to_str\(\)\.ok\(\)\)\s*'
+                       r'\.map\(\|h\|\s*h\.eq_ignore_ascii_case\("([^"]*)"\)\)\s*\.unwrap_or\(false\)', body),
+             'create_parts Upgrade check')
+    upg_name, upg_val = m.group(1), m.group(2)
+    m = need(re.search(r'if\s*!\s*request\.headers\(\)\.get\("([^"]*)"\)\.map\(\|h\|\s*h\s*==\s*"([^"]*)"\)\.unwrap_or\(false\)',
+                       body), 'create_parts version header check')
+    ver_name, ver_val = m.group(1), m.group(2)
+    m = need(re.search(r'\.get\("([^"]*)"\)\s*\.ok_or\(Error::Protocol\(ProtocolError::MissingSecWebSocketKey\)\)', body),
+             'create_parts key lookup')
+    key_name = m.group(1)
+    if not re.search(r'\.status\(StatusCode::SWITCHING_PROTOCOLS\)', body):
+        raise TranslateError('create_parts: status is no longer SWITCHING_PROTOCOLS')
+    resp = re.findall(r'\.header\("([^"]*)"\s*,\s*("([^"]*)"|derive_accept_key\(key\.as_bytes\(\)\))\)', body)
+    if len(resp) != 3 or resp[2][1].startswith('"') or not resp[0][1].startswith('"') or not resp[1][1].startswith('"'):
+        raise TranslateError(f'create_parts: response headers changed: {resp}')
+
+    # verify_response
+    params, body = find_fn(cli, 'verify_response', 'VerifyData::verify_response')
+    errs = re.findall(r'(?:ProtocolError|SubProtocolError)::(\w+)', body)
+    want = ['MissingUpgradeWebSocketHeader', 'MissingConnectionUpgradeHeader', 'SecWebSocketAcceptKeyMismatch',
+            'SecWebSocketSubProtocolError', 'NoSubProtocol', 'SecWebSocketSubProtocolError',
+            'ServerSentSubProtocolNoneRequested', 'SecWebSocketSubProtocolError', 'InvalidSubProtocol']
+    if errs != want:
+        raise TranslateError(f'verify_response: order of checks changed: {errs}')
+    if not re.search(r'response\.status\(\)\s*!=\s*StatusCode::SWITCHING_PROTOCOLS', body):
+        raise TranslateError('verify_response: status check changed')
+    chk = re.findall(r'\.get\("([^"]*)"\)\s*\.and_then\(\|h\|\s*h\.to_str\(\)\.ok\(\)\)\s*\.map\(\|h\|\s*h\.eq_ignore_ascii_case\("([^"]*)"\)\)\s*\.unwrap_or\(false\)', body)
+    if len(chk) != 2:
+        raise TranslateError(f'verify_response: Upgrade/Connection checks changed: {chk}')
+    m = need(re.search(r'headers\.get\("([^"]*)"\)\.map\(\|h\|\s*h\s*==\s*&self\.accept_key\)\.unwrap_or\(false\)', body),
+             'verify_response accept check')
+    acc_name = m.group(1)
+    protos = set(re.findall(r'headers\.get\("(Sec-WebSocket-Protocol)"\)', body))
+    if protos != {'Sec-WebSocket-Protocol'}:
+        raise TranslateError('verify_response: subprotocol header name changed')
+    norm = re.sub(r'\s+', ' ', body)
+    for frag in ['headers.get("Sec-WebSocket-Protocol").is_none() && self.subprotocols.is_some()',
+                 'headers.get("Sec-WebSocket-Protocol").is_some() && self.subprotocols.is_none()',
+                 '!accepted_subprotocols.contains(&returned_subprotocol.to_str()?.to_string())']:
+        if frag not in norm:
+            raise TranslateError(f'verify_response: subprotocol logic changed (missing `{frag}`)')
+
+    # generate_request
+    params, body = find_fn(cli, 'generate_request', 'generate_request')
+    m = need(re.search(r'const\s+KEY_HEADERNAME\s*:\s*&str\s*=\s*"([^"]*)"\s*;', body), 'KEY_HEADERNAME')
+    keyhdr = m.group(1)
+    m = need(re.search(r'const\s+WEBSOCKET_HEADERS\s*:\s*\[&str;\s*5\]\s*=\s*\[([^\]]*)\]\s*;', body), 'WEBSOCKET_HEADERS')
+    names = [x.strip() for x in m.group(1).split(',') if x.strip()]
+    names = [keyhdr if x == 'KEY_HEADERNAME' else x.strip('"') for x in names]
+
+    # IntoClientRequest for Uri
+    impl = find_block(ccl, r'impl\s+IntoClientRequest\s+for\s+Uri\s*\{', 'impl IntoClientRequest for Uri')
+    m = need(re.search(r'authority\s*\.(r?find)\(\'@\'\)\s*\.map\(\|idx\|\s*authority\.split_at\(idx \+ 1\)\.1\)', impl),
+             'Host extraction (find/rfind of @)')
+    last_at = m.group(1) == 'rfind'
+    hdrs = re.findall(r'\.header\("([^"]*)"\s*,\s*("([^"]*)"|host|generate_key\(\))\)', impl)
+    if [h[0] for h in hdrs] != ['Host', 'Connection', 'Upgrade', 'Sec-WebSocket-Version', 'Sec-WebSocket-Key']:
+        raise TranslateError(f'IntoClientRequest for Uri: headers changed: {hdrs}')
+    if hdrs[0][1] != 'host' or hdrs[4][1] != 'generate_key()':
+        raise TranslateError('IntoClientRequest for Uri: Host/key sources changed')
+
+    def bl(sv):
+        return byte_list(sv.encode())
+    out = ['/- GENERATED by translator/rs2lean.py from src/handshake/{mod,server,client}.rs, src/client.rs — do not edit. -/',
+           'namespace WsModel.Gen', '',
+           '/-- `WS_GUID` of `derive_accept_key` -/',
+           'def wsGuidLit : List UInt8 :=', '  ' + bl(guid), '',
+           '/-- header names and required values of `create_parts` (server), in the order they are checked -/',
+           f'def srvConnectionName : List UInt8 := {bl(conn_name)}',
+           f'def srvConnectionToken : List UInt8 := {bl(conn_tok)}',
+           f'def srvConnectionSplit : List UInt8 := {byte_list(split_chars)}',
+           f'def srvUpgradeName : List UInt8 := {bl(upg_name)}',
+           f'def srvUpgradeValue : List UInt8 := {bl(upg_val)}',
+           f'def srvVersionName : List UInt8 := {bl(ver_name)}',
+           f'def srvVersionValue : List UInt8 := {bl(ver_val)}',
+           f'def srvKeyName : List UInt8 := {bl(key_name)}',
+           '/-- response headers written by `create_parts`, in order: (name, value) with `none` = the accept key -/',
+           f'def srvRespConnection : List UInt8 × List UInt8 := ({bl(resp[0][0])}, {bl(resp[0][2])})',
+           f'def srvRespUpgrade : List UInt8 × List UInt8 := ({bl(resp[1][0])}, {bl(resp[1][2])})',
+           f'def srvRespAcceptName : List UInt8 := {bl(resp[2][0])}', '',
+           '/-- `verify_response` (client) -/',
+           f'def cliUpgradeName : List UInt8 := {bl(chk[0][0])}',
+           f'def cliUpgradeValue : List UInt8 := {bl(chk[0][1])}',
+           f'def cliConnectionName : List UInt8 := {bl(chk[1][0])}',
+           f'def cliConnectionValue : List UInt8 := {bl(chk[1][1])}',
+           f'def cliAcceptName : List UInt8 := {bl(acc_name)}',
+           f'def cliProtocolName : List UInt8 := {bl("Sec-WebSocket-Protocol")}',
+           'def cliSwitchingProtocols : Nat := 101', '',
+           '/-- `WEBSOCKET_HEADERS` of `generate_request`, in order; the last one is `KEY_HEADERNAME` -/',
+           'def reqHeaderNames : List (List UInt8) :=',
+           '  [' + ', '.join(bl(n) for n in names) + ']',
+           f'def reqKeyName : List UInt8 := {bl(keyhdr)}', '',
+           '/-- header values of `impl IntoClientRequest for Uri`, in order (Host and the key are computed) -/',
+           f'def uriReqConnection : List UInt8 := {bl(hdrs[1][2])}',
+           f'def uriReqUpgrade : List UInt8 := {bl(hdrs[2][2])}',
+           f'def uriReqVersion : List UInt8 := {bl(hdrs[3][2])}',
+           "/-- the Host is the authority after the LAST '@' (`rfind`): `true`; after the first (`find`): `false` -/",
+           f'def uriHostAfterLastAt : Bool := {"true" if last_at else "false"}', '',
+           'end WsModel.Gen']
+    return '\n'.join(out) + '\n'
+
+
+GENERATORS = [('Handshake.lean', gen_handshake), ('Coding.lean', gen_coding), ('LengthFormat.lean', gen_lengthformat),
               ('State.lean', gen_state), ('Attack.lean', gen_attack)]
 
 
